@@ -209,18 +209,35 @@ class _Capture(__import__("logging").Handler):
         self.records.append(txt)
 
 
+EMITS = ("emit", "snap")
+
+
 class ProxyLoop:
     """Stands in for server.io_loop during settled runs: callbacks handed over by
-    WebSocketHandler.broadcast are kept in FIFO order until the harness runs them."""
+    WebSocketHandler.broadcast are kept in FIFO order until the harness runs them.
+
+    With ``gated`` every add_callback call of the actor thread blocks until the harness
+    releases it (a HandOver step of the model): the loop-side steps of a schedule (callback
+    runs, connects, disconnects, failures) can then be placed between the snapshot and the
+    individual hand-overs of one broadcast."""
 
     def __init__(self, real):
         self.real = real
         self.fifo = []
         self.lock = threading.Lock()
+        self.gated = False
+        self.arrived = threading.Event()
+        self.release = threading.Event()
+        self.appended = threading.Event()
 
     def add_callback(self, cb, *a, **kw):
+        if self.gated:
+            self.arrived.set()
+            self.release.wait(30)
+            self.release.clear()
         with self.lock:
             self.fifo.append((cb, a, kw))
+        self.appended.set()
 
     def __getattr__(self, name):
         return getattr(self.real, name)
@@ -321,6 +338,23 @@ class Rig:
     def barrier_actor(self):
         """Mailbox is FIFO: once this ask is answered every earlier tell was processed."""
         self.ref.proxy().hostname.get(timeout=5)
+
+    def wait_blocked_or_idle(self, proxy, timeout=5.0):
+        """After an emit / a hand-over in gated mode: the actor thread is either blocked in
+        the next add_callback ("blocked") or has returned from on_event ("idle")."""
+        if getattr(self, "_proxy", None) is None:
+            self._proxy = self.ref.proxy()
+        fut = self._proxy.hostname
+        t0 = time.time()
+        while time.time() - t0 < timeout:
+            if proxy.arrived.is_set():
+                return "blocked"
+            try:
+                fut.get(timeout=0.001)
+                return "blocked" if proxy.arrived.is_set() else "idle"
+            except self.pykka.Timeout:
+                continue
+        raise RuntimeError("frontend actor neither blocked in add_callback nor idle")
 
     def emit(self, name, kw):
         from mopidy.core import CoreListener
@@ -697,13 +731,20 @@ def gen_repeat_schedule(rng):
 
 
 def g_steps(steps, orders=None):
-    """Model step list; the i-th emit carries the value i and the observed snapshot order."""
+    """Model step list; the i-th emission carries the value i and the observed snapshot
+    order.  ("emit",) is the macro "snapshot and hand everything over at once" (Emit followed
+    by one HandOver per scheduled callback); ("snap",) is the snapshot alone, its callbacks
+    are handed over by explicit ("handover",) steps."""
     out, i = [], 0
     for st in steps:
-        if st[0] == "emit":
+        if st[0] in EMITS:
             o = orders[i] if orders and i < len(orders) and orders[i] is not None else []
             out.append(f"(Emit {i} {g_list([g_z(x) for x in o])})")
+            if st[0] == "emit":
+                out += ["HandOver"] * len(o)
             i += 1
+        elif st[0] == "handover":
+            out.append("HandOver")
         elif st[0] == "connect":
             out.append(f"Connect {st[1]}")
         elif st[0] == "disconnect":
@@ -715,6 +756,57 @@ def g_steps(steps, orders=None):
         else:
             out.append("RunCallback")
     return g_list(out)
+
+
+def gen_stepwise_schedule(rng, max_clients=5, max_len=45):
+    """The hand-off is not atomic: ("snap",) takes the snapshot, each ("handover",) passes one
+    callback to the loop, and the loop-side steps (runs, connects, disconnects, failures) are
+    placed anywhere in between.  A new snapshot is only taken when the previous broadcast has
+    handed everything over (the frontend actor is sequential).  Usually drained."""
+    steps, connected, failing, ever = [], [], set(), 0
+    outbox, pending = 0, 0
+    for c in range(rng.randint(0, 3)):
+        steps.append(("connect", ever))
+        connected.append(ever)
+        ever += 1
+    for _ in range(rng.randint(3, max_len)):
+        k = rng.weighted([("snap", 5 if outbox == 0 else 0), ("handover", 8 if outbox else 0),
+                          ("run", 6 if pending else 0.3),
+                          ("connect", 2.5 if (ever < max_clients + 3 and len(connected) < max_clients) else 0),
+                          ("disconnect", 1.5 if connected else 0), ("fail", 1 if connected else 0),
+                          ("recover", 1 if failing else 0)])
+        if k == "snap":
+            steps.append(("snap",))
+            outbox = len(connected)
+        elif k == "handover":
+            steps.append(("handover",))
+            outbox -= 1
+            pending += 1
+        elif k == "run":
+            steps.append(("run",))
+            pending = max(0, pending - 1)
+        elif k == "connect":
+            steps.append(("connect", ever))
+            connected.append(ever)
+            ever += 1
+        elif k == "disconnect":
+            c = rng.choice(connected)
+            connected.remove(c)
+            failing.discard(c)
+            steps.append(("disconnect", c))
+        elif k == "fail":
+            c = rng.choice(connected)
+            failing.add(c)
+            steps.append(("fail", c, rng.choice(["patch", "patch", "noconn"]),
+                          rng.choice(["WebSocketClosedError", "StreamClosedError", "RuntimeError", "OSError"])))
+        else:
+            c = rng.choice(sorted(failing))
+            failing.discard(c)
+            steps.append(("recover", c))
+    drained = rng.random() < 0.85
+    if drained:
+        steps += [("handover",)] * outbox + [("run",)] * (pending + outbox + 2)
+    return steps, drained
 
 
 # ----------------------------------------------------------------------------
@@ -760,6 +852,31 @@ def run_settled(rig, rng, steps, repeats=False):
     def perform(action):
         (do_connect if action[0] == "connect" else do_disconnect)(action[1])
 
+    def new_event():
+        if repeats:
+            name, kw = rng.choice(REPEATABLE[:3] if rng.random() < 0.5 else REPEATABLE)
+            content = canonical(expected_message(name, kw))
+        else:
+            name, kw, content = make_event(rng, len(events), used)
+        events.append((name, kw, content))
+        return name, kw
+
+    def hand_over():
+        """Release one add_callback call of the actor thread (no-op when nothing is waiting,
+        like HandOver on an empty outbox)."""
+        if not proxy.arrived.is_set():
+            return
+        proxy.arrived.clear()
+        proxy.appended.clear()
+        proxy.release.set()
+        if not proxy.appended.wait(5):
+            raise RuntimeError("released add_callback call did not complete")
+        cb, a, _kw = proxy.fifo[-1]
+        args = getattr(cb, "args", None)
+        h = args[0] if args else (a[0] if a else None)
+        emit_targets[-1].append(handler_cid.get(id(h)))
+        rig.wait_blocked_or_idle(proxy)
+
     try:
         for st in steps:
             if died:
@@ -774,13 +891,21 @@ def run_settled(rig, rng, steps, repeats=False):
                 clients[st[1]].fail(st[2], st[3])
             elif st[0] == "recover":
                 clients[st[1]].recover()
+            elif st[0] == "snap":
+                # snapshot only: the actor thread blocks in its first add_callback
+                name, kw = new_event()
+                proxy.gated = True
+                proxy.arrived.clear()
+                rig.emit(name, kw)
+                rig.wait_blocked_or_idle(proxy)
+                emit_targets.append([])
+            elif st[0] == "handover":
+                hand_over()
             elif st[0] == "emit":
-                if repeats:
-                    name, kw = rng.choice(REPEATABLE[:3] if rng.random() < 0.5 else REPEATABLE)
-                    content = canonical(expected_message(name, kw))
-                else:
-                    name, kw, content = make_event(rng, len(events), used)
-                events.append((name, kw, content))
+                if proxy.arrived.is_set():
+                    raise RuntimeError("schedule emits while a broadcast is still being handed over")
+                proxy.gated = False
+                name, kw = new_event()
                 before = len(proxy.fifo)
                 actions = [tuple(a) for a in st[1]] if len(st) > 1 and st[1] else []
                 flat_steps.append(("emit",))
@@ -829,6 +954,11 @@ def run_settled(rig, rng, steps, repeats=False):
                     box = rig.on_loop(lambda: cb(*a, **kw2))
                     if "e" in box:
                         escaped.append(repr(box["e"]))
+        # a broadcast still being handed over: let the actor finish (these late callbacks are
+        # never run and are no steps of the schedule; they complete the observed snapshot)
+        while proxy.arrived.is_set():
+            hand_over()
+        proxy.gated = False
         # settle: every open client reads everything written so far
         for cid, c in clients.items():
             if not c.closed.is_set() and not died:
@@ -836,6 +966,8 @@ def run_settled(rig, rng, steps, repeats=False):
                 if not c.sync("end"):
                     escaped.append(f"client {cid} did not answer the final sync")
     finally:
+        proxy.gated = False
+        proxy.release.set()      # never leave the actor thread blocked in the gate
         rig.server.io_loop = rig.real_loop
         for c in clients.values():
             try:
@@ -864,6 +996,7 @@ def run_settled(rig, rng, steps, repeats=False):
             dec.append(i)
             shapes.append((cid, i, raw, obj))
         logs[cid] = dec
+    emit_targets = [None if (t is None or any(x is None for x in t)) else t for t in emit_targets]
     return {"logs": logs, "emit_targets": emit_targets, "events": events, "escaped": escaped, "shapes": shapes,
             "flat_steps": flat_steps, "fired": fired, "actor_died": died}
 
@@ -1030,7 +1163,7 @@ def py_sent(steps, c):
     """Python mirror of Broadcast.sent: emission indices emitted while c was connected."""
     conn, out, i = False, [], 0
     for st in steps:
-        if st[0] == "emit":
+        if st[0] in EMITS:
             if conn:
                 out.append(i)
             i += 1
@@ -1052,7 +1185,7 @@ def recovered_and_connected(steps, c):
             conn = True
         elif st[0] == "disconnect" and st[1] == c:
             conn = False
-    return conn and any(st[0] == "emit" for st in steps[last:])
+    return conn and any(st[0] in EMITS for st in steps[last:])
 
 
 def is_subseq(a, b):
@@ -1093,8 +1226,8 @@ def settled_py_monitors(steps, drained, obs):
                     elif st[0] == "disconnect" and st[1] == c:
                         conn = False
                 if conn:
-                    n_before = sum(1 for st in steps[:last] if st[0] == "emit")
-                    n_all = sum(1 for st in steps if st[0] == "emit")
+                    n_before = sum(1 for st in steps[:last] if st[0] in EMITS)
+                    n_all = sum(1 for st in steps if st[0] in EMITS)
                     must = list(range(n_before, n_all))
                     if must and log[len(log) - len(must):] != must:
                         bad.append(("T1_complete_after_recovery",
@@ -1108,7 +1241,7 @@ def settled_py_monitors(steps, drained, obs):
             connected.add(st[1])
         elif st[0] == "disconnect":
             connected.discard(st[1])
-        elif st[0] == "emit":
+        elif st[0] in EMITS:
             tg = obs["emit_targets"][ei] if ei < len(obs["emit_targets"]) else None
             ei += 1
             if tg is not None and not set(tg) <= connected:
@@ -1122,9 +1255,19 @@ def settled_py_monitors(steps, drained, obs):
     return bad
 
 
+DRAIN_TAIL = [("handover",)] * 8 + [("run",)] * 48
+
+
 def valid_schedule(steps):
     connected, ever, failing = set(), set(), set()
+    outbox = 0
     for st in steps:
+        if st[0] in EMITS:
+            if outbox:
+                return False      # the sequential frontend cannot start a second broadcast
+            outbox = len(connected) if st[0] == "snap" else 0
+        elif st[0] == "handover":
+            outbox = max(0, outbox - 1)
         if st[0] == "connect":
             if st[1] in ever:
                 return False
@@ -1168,13 +1311,13 @@ def report_settled(chk, rig, steps, drained, repeats, obs):
                 return False
             if mon0 not in NEEDS_DRAIN:
                 return any(m == mon0 for m, _w, _d in settled_py_monitors(cand, False, o))
-            full = cand + [("run",)] * 40
+            full = cand + DRAIN_TAIL
             o = run_settled(rig, vlib.Rng(0, "c17-shrink"), full, repeats=repeats)
             return any(m == mon0 for m, _w, _d in settled_py_monitors(full, True, o))
         try:
             small = vlib.shrink_list(steps, fails, max_steps=80)
             if mon0 in NEEDS_DRAIN:
-                small = small + [("run",)] * 40
+                small = small + DRAIN_TAIL
             o2 = run_settled(rig, vlib.Rng(0, "c17-shrink"), small, repeats=repeats)
             bad2 = settled_py_monitors(small, drained or mon0 in NEEDS_DRAIN, o2)
             if any(m == mon0 for m, _w, _d in bad2):
@@ -1259,6 +1402,9 @@ def settled_stage(chk, rigbox, n_cases):
             steps, drained, repeats = corpus[k]
         elif chk.rng.random() < 0.10:
             steps, drained = gen_interleaved_schedule(chk.rng)
+        elif chk.rng.random() < 0.28:
+            steps, drained = gen_stepwise_schedule(chk.rng)
+            chk.dist("settled:stepwise-hand-over")
         else:
             repeats = chk.rng.random() < 0.12
             steps, drained = gen_repeat_schedule(chk.rng) if repeats else gen_schedule(chk.rng)
@@ -1279,7 +1425,7 @@ def settled_stage(chk, rigbox, n_cases):
         if repeats:
             chk.dist("settled:content-identical-events")
         kinds = {s[0] for s in steps}
-        n_emit = sum(1 for s in steps if s[0] == "emit")
+        n_emit = sum(1 for s in steps if s[0] in EMITS)
         n_cl = sum(1 for s in steps if s[0] == "connect")
         chk.dist(f"settled:clients={n_cl}")
         chk.dist(f"settled:emits<={10 * ((n_emit + 9) // 10)}")
@@ -1315,9 +1461,9 @@ def settled_stage(chk, rigbox, n_cases):
         "Definition mon1 (c : cases_ty) : bool := let '(l, logs, tg, known, drained) := c in\n"
         "  forallb (fun p => t1_log_ok (fst p) l (snd p)) logs.\n"
         "Definition mon2 (c : cases_ty) : bool := let '(l, logs, tg, known, drained) := c in\n"
-        "  negb drained || forallb (fun p => t1_complete_ok (fst p) l (snd p)) logs.\n"
+        "  negb (idle (run l)) || forallb (fun p => t1_complete_ok (fst p) l (snd p)) logs.\n"
         "Definition mon3 (c : cases_ty) : bool := let '(l, logs, tg, known, drained) := c in\n"
-        "  negb drained || forallb (fun p => t1_recovered_ok (fst p) l (snd p)) logs.\n")
+        "  negb (idle (run l)) || forallb (fun p => t1_recovered_ok (fst p) l (snd p)) logs.\n")
     per = 100
     shards = [terms[i: i + per] for i in range(0, len(terms), per)]
     texts = [vlib.COQ_HEADER + COQ_IMPORTS + body + "Definition cases : list cases_ty :=\n " + g_list(sh) + ".\n"
@@ -1445,10 +1591,10 @@ def _search(rig, steps):
             rig.stopped or rig.stop()
             rig = rigbox[0]
             _SEARCH_RIG[0] = rig
-    cands = [steps + [("run",)] * 40] + [steps[:k] + [("run",)] * 40 for k in range(len(steps), 0, -max(1, len(steps) // 10))]
+    cands = [steps + DRAIN_TAIL] + [steps[:k] + DRAIN_TAIL for k in range(len(steps), 0, -max(1, len(steps) // 10))]
     for _ in range(60):
         sub = [st for st in steps if rng.random() < 0.8]
-        cands.append(sub + [("run",)] * 40)
+        cands.append(sub + DRAIN_TAIL)
     for cand in cands:
         if not valid_schedule(cand):
             continue
